@@ -300,7 +300,10 @@ pub fn accept_case(c: &AcceptCase, obs: &mut Obs) -> PResult {
 }
 
 pub fn strategy(max_n: usize) -> impl Strategy<Value = Case> {
-    (gen::positive_sample(max_n), gen::conf(), 0u8..3).prop_map(|(sample, conf, style)| Case { sample, conf, style })
+    // 4 %: vanishing levels (two-sided down to the smallest positive double; one-sided down to 1e-17, below which the
+    // Student-t quantile of the dependency gives up)
+    let conf = prop_oneof![24 => gen::conf(), 1 => prop::sample::select(vec![Conf::new(0, 1e-17), Conf::new(0, 1e-300), Conf::new(0, 5e-324), Conf::new(1, 1e-17), Conf::new(2, 5e-17), Conf::new(0, 5.5e-17)])];
+    (gen::positive_sample(max_n), conf, 0u8..3).prop_map(|(sample, conf, style)| Case { sample, conf, style })
 }
 
 pub fn run(run: &mut Run) {
